@@ -3,6 +3,7 @@ package mptsim
 import (
 	"bytes"
 	"context"
+	"encoding/binary"
 	"encoding/json"
 	"fmt"
 	"sort"
@@ -10,6 +11,7 @@ import (
 	"github.com/0chain/common/core/statecache"
 	"github.com/0chain/common/core/util"
 	"github.com/linxGnu/grocksdb"
+	"golang.org/x/crypto/sha3"
 
 	"verif/harness/sim"
 )
@@ -190,6 +192,19 @@ func applyTxn(b *blk, op Op) {
 			return // block frozen while a transaction state is open
 		}
 		m.Insert(util.Path(op.P), val(op.V))
+	case "inspre":
+		// a caller-chosen value that is, byte for byte, what some node of the current state is hashed from: the
+		// hash of this value equals the key of that node (values and nodes share one hash space)
+		if k == nil && anyOpen() {
+			return
+		}
+		nodes := reach(m.GetNodeDB(), m.GetRoot())
+		if len(nodes) == 0 {
+			return
+		}
+		if pre := hashPreimage(nodes[int(op.N)%len(nodes)].node); pre != nil {
+			m.Insert(util.Path(op.P), val(pre))
+		}
 	case "del":
 		if k == nil && anyOpen() {
 			return
@@ -284,6 +299,24 @@ func reachSet(db util.NodeDB, root util.Key) (set map[string]bool, missing int) 
 		walk(root)
 	}
 	return
+}
+
+// hashPreimage returns the bytes a node's key is the hash of: LE64(origin) followed by the node's body, i.e. its
+// encoding without the header. The header length is not assumed: the candidate is accepted only if it hashes to the
+// node's key.
+func hashPreimage(n util.Node) []byte {
+	enc := n.Encode()
+	var o [8]byte
+	binary.LittleEndian.PutUint64(o[:], uint64(n.GetOrigin()))
+	for off := 0; off <= 40 && off <= len(enc); off++ {
+		pre := append(append([]byte{}, o[:]...), enc[off:]...)
+		d := sha3.New256()
+		d.Write(pre)
+		if bytes.Equal(d.Sum(nil), n.GetHashBytes()) {
+			return pre
+		}
+	}
+	return nil
 }
 
 // readRoot opens a fresh trie on db alone and reads everything.
@@ -478,7 +511,10 @@ func (w *rworld) apply(op Op) {
 			w.openRound(0)
 			b = w.cur()
 		}
-		if op.K == "ins" || op.K == "del" {
+		if op.K == "inspre" {
+			w.stats.Inc("probe.value-is-the-hash-preimage-of-a-node")
+		}
+		if op.K == "ins" || op.K == "del" || op.K == "inspre" {
 			w.stats.Inc("mut")
 		}
 		b.ops = append(b.ops, op)
